@@ -376,6 +376,8 @@ pub const C13: Registry = &[
     ("kx_seed_keypair", kx_seed_keypair),
     ("sign_seed_keypair", sign_seed_keypair),
     ("ed25519_to_curve25519", ed_to_curve),
+    // same body, honest keys selected by the byte pattern of their public key
+    ("ed25519_to_curve25519_pk_class", ed_to_curve),
     ("ed25519_sk_to_curve25519_any", ed_sk_to_curve_any),
 ];
 
@@ -409,6 +411,52 @@ pub fn c13(ctx: &mut Ctx) -> Search {
         ctx.run("ed25519_to_curve25519", Input::new().b("seed", &seed))?;
         let sk = ctx.rng.arr::<64>();
         ctx.run("ed25519_sk_to_curve25519_any", Input::new().b("sk", &sk))?;
+    }
+
+    // Honest keys whose public-key encoding falls into a byte class that
+    // canonicity / range / sign-bit checks look at (y close to 2^255, last byte
+    // 0x7f / 0xff / 0x00 / 0x80, first byte around 0xed = low byte of p, ..).
+    // Random seeds hit e.g. "(pk[31] & 0x7f) == 0x7f and pk[0] >= 0xed" once in
+    // ~1700 keys, so a counter-seeded range is scanned with the oracle and the
+    // conversion cases run on the selected seeds.
+    let known = h32("de0700007b98b5d2ef0c294663809dbad7f4112e4b6885a2bfdcf91633506d8a"); // pk f1ef..8b7f
+    ctx.run("ed25519_to_curve25519_pk_class", Input::new().b("seed", &known))?;
+    ctx.run("sign_seed_keypair", Input::new().b("seed", &known))?;
+    let scan: u32 = if t { 250_000 } else { 20_000 };
+    let mut per_class = [0u32; 8];
+    for n in 0..scan {
+        let mut seed = [0u8; 32];
+        for (j, b) in seed.iter_mut().enumerate() {
+            *b = (j as u8).wrapping_mul(29).wrapping_add(7);
+        }
+        seed[..4].copy_from_slice(&n.to_le_bytes());
+        let (pk, _) = so::sign_seed_keypair(&seed);
+        let last7 = pk[31] & 0x7f;
+        let class = if last7 == 0x7f && pk[0] >= 0xed {
+            0
+        } else if last7 == 0x7f {
+            1
+        } else if last7 == 0 {
+            2
+        } else if pk[0] >= 0xed && pk[1] == 0xff {
+            3
+        } else if matches!(pk[0], 0x00 | 0x01 | 0xec | 0xed | 0xee | 0xff) {
+            4
+        } else if pk[30] == 0xff || pk[1..4] == [0xff; 3] {
+            5
+        } else {
+            continue;
+        };
+        // the frequent classes are capped, the rare ones run every hit
+        per_class[class] += 1;
+        let cap = if t { 2000 } else { 200 };
+        if class >= 2 && per_class[class] > cap {
+            continue;
+        }
+        ctx.run("ed25519_to_curve25519_pk_class", Input::new().b("seed", &seed))?;
+        if class == 0 {
+            ctx.run("sign_seed_keypair", Input::new().b("seed", &seed))?;
+        }
     }
     Ok(())
 }
